@@ -56,6 +56,7 @@ func Regist(s *Stream) {
 		if oldS.ConsumerCount() <= 0 { // 没有消费者直接关闭
 			oldS.close(StreamReplaced)
 		} else { // 有消费者个5分钟检查一次，直到没有消费者就关闭
+			retired.Store(oldS, struct{}{})
 			runZeroConsumersCloseTask(oldS, StreamReplaced)
 		}
 	}
@@ -74,12 +75,20 @@ func Unregist(s *Stream) {
 	s.Close()
 }
 
+// retired 已被同路径的新流换下、因还有消费者而暂未关闭的流；它们已不在 streams 中，
+// 停止服务时也必须关闭，否则其消费者永远不会被释放
+var retired sync.Map
+
 // UnregistAll 取消全部注册的流
 func UnregistAll() {
 	streams.Range(func(key, value interface{}) bool {
 		streams.Delete(key)
 		s := value.(*Stream)
 		s.Close()
+		return true
+	})
+	retired.Range(func(key, value interface{}) bool {
+		key.(*Stream).Close()
 		return true
 	})
 }
